@@ -15,3 +15,22 @@ const CORPUS_PATHS: &[&str] = &[
     "/pkg.Svc/Inner/Get", "/Svc/Svc/Get", "/pkg.Svc/pkg.Svc/Get", "/pkg.Svc/{*rest}", "/{S}/Get", "/pkg.Svc/*",
 ];
 
+/// paths aimed at the identifier fixture (build.rs id_fixture): exact proto spellings and every
+/// Rust-side spelling of service, method, module, package
+const ID_CORPUS_PATHS: &[&str] = &[
+    // exact: /<package>.<identifier>/<method identifier>
+    "/pkg.HTTPEcho/Ping", "/pkg.HTTPEcho/GetURL", "/pkg.HTTPEcho/Stream_V2", "/pkg.Echo_V2/echo", "/pkg.Echo_V2/EchoAll",
+    "/greeter/SayHello", "/greeter/sayHelloAgain", "/HTTPEcho/Ping", "/pkg.HttpEcho/Ping", "/pkg.HttpEcho/OnlyHere", "/Greeter/SayHello",
+    // Service::name() instead of the identifier
+    "/pkg.HttpEcho/GetURL", "/pkg.HttpEcho/Stream_V2", "/pkg.EchoV2/echo", "/pkg.EchoV2/EchoAll", "/Greeter/sayHelloAgain", "/HttpEcho/Ping",
+    // Method::name() / other casings of the method
+    "/pkg.HTTPEcho/ping", "/pkg.HTTPEcho/get_url", "/pkg.HTTPEcho/GetUrl", "/pkg.HTTPEcho/stream_v2", "/pkg.HTTPEcho/StreamV2",
+    "/pkg.Echo_V2/Echo", "/pkg.Echo_V2/echo_all", "/greeter/say_hello", "/greeter/SayHelloAgain", "/greeter/say_hello_again", "/pkg.HttpEcho/only_here",
+    // both
+    "/pkg.HttpEcho/ping", "/pkg.EchoV2/echo_all", "/Greeter/say_hello",
+    // module / type names, package on and off
+    "/pkg.http_echo/Ping", "/pkg.http_echo_server/Ping", "/pkg.HTTPEchoServer/Ping", "/pkg.HttpEchoServer/Ping", "/pkg.echo_v2/echo",
+    "/hidden.pkg.HTTPEcho/Ping", "/hidden.pkg.HttpEcho/Ping", "/hidden.pkg.Greeter/SayHello", "/hidden.pkg/Ping", "/pkg.greeter/SayHello", "/pkg.Greeter/SayHello",
+    "/Echo_V2/echo", "/EchoV2/echo", "/pkg/HTTPEcho/Ping", "/pkg.HTTPEcho.Ping", "/pkg.HTTPECHO/Ping", "/pkg.httpecho/Ping", "/pkg.HTTPEcho/PING",
+    "/pkg.Echo-V2/echo", "/pkg.Echo%5FV2/echo", "/pkg.Echo_V2/", "/pkg.Echo_V/echo", "/pkg.Echo_V22/echo", "/GREETER/SayHello", "/greeter./SayHello",
+];
